@@ -473,6 +473,7 @@ class State(object):
         self.events = []     # ordered mixed events: ('call'|'store'|'yield'|'raise'|'return'|'del', ...)
         self.hashes = []     # (alg, items, lineno) for every digest taken on this path
         self.bound = {}      # canonical bound-variable name ($k) -> text of the collection it ranges over
+        self.filters = {}    # canonical bound-variable name ($k) -> filter text fused into its iteration (`for x in (y for y in C if f)`)
 
     def fork(self):
         s = State()
@@ -484,6 +485,7 @@ class State(object):
         s.events = list(self.events)
         s.hashes = list(self.hashes)
         s.bound = dict(self.bound)
+        s.filters = dict(self.filters)
         s.ret = self.ret
         s.raised = self.raised
         return s
@@ -909,6 +911,8 @@ class Frame(object):
         if target is not None:
             vartext = self._assign_loopvars(target, st, node, self._bname(node))
             st.bound[self._bname(node)] = colltext.split(' if ')[0]       # the collection; a fused filter stays in the EACH text
+            if ' if ' in colltext:
+                st.filters[self._bname(node)] = colltext.split(' if ', 1)[1]
         nyield = len(st.yields)
         body = self.block(node.body, st)
         outs = []
@@ -1969,6 +1973,7 @@ class Frame(object):
         frame_st.events = st.events
         frame_st.hashes = st.hashes
         frame_st.bound = st.bound
+        frame_st.filters = st.filters
         fr = Frame(self.I, fi, self.depth + 1)
         outs = fr.block(fi.node.body, frame_st)
         rets = [(s, status) for s, status in outs if status in ('return', 'normal')]
